@@ -378,3 +378,11 @@ Lemma download_examples :
   download_name "/charts/x-1.0.0.tgz" = Some "x-1.0.0.tgz" /\ download_name "/charts/../../x.tgz" = Some "x.tgz" /\
   download_name "/charts/.." = None /\ download_name "/" = None /\ download_name "/charts/." = None.
 Proof. repeat split; vm_compute; reflexivity. Qed.
+
+(* the per-file limit does not depend on the entry's name *)
+Lemma file_limit_any_name :
+  load_archive_files 1000 5 (mkTS false [mkTE "c/Chart.yaml" 48 420 4 "name" false;
+                                         mkTE "c/charts/sub/files/blob.tgz" 48 420 6 "123456" false] false) = inl EFile /\
+  load_archive_files 1000 5 (mkTS false [mkTE "c/Chart.yaml" 48 420 4 "name" false;
+                                         mkTE "c/charts/sub-0.1.0.tgz" 48 420 6 "123456" false] false) = inl EFile.
+Proof. split; vm_compute; reflexivity. Qed.
